@@ -2493,6 +2493,9 @@ impl DnsIncoming {
         let data = &self.data[..];
         let start_offset = self.offset;
         let mut offset = start_offset;
+        // Every compression pointer must point below the previous one
+        // (initially: below the start of this name), so the walk terminates.
+        let mut pointer_limit = start_offset;
         let mut name = "".to_string();
         let mut at_end = false;
 
@@ -2559,13 +2562,14 @@ impl DnsIncoming {
                         )));
                     }
                     let pointer = (u16_from_be_slice(slice) ^ 0xC000) as usize;
-                    if pointer >= start_offset {
+                    if pointer >= pointer_limit {
                         // Error: could trigger an infinite loop.
                         return Err(Error::Msg(format!(
-                            "Invalid name compression: pointer {} must be less than the start offset {}",
-                            &pointer, &start_offset
+                            "Invalid name compression: pointer {} must be less than {}",
+                            &pointer, &pointer_limit
                         )));
                     }
+                    pointer_limit = pointer;
 
                     // A pointer marks the end of a domain name.
                     if !at_end {
